@@ -1836,6 +1836,23 @@ impl Element {
                     }
                 }
             }
+
+            // check the compatibility of the character data in this element: an enum value might not exist in the target version
+            if let Some(value_spec) = elemtype_new.chardata_spec() {
+                for content_item in &element.content {
+                    if let ElementContent::CharacterData(chardata) = content_item {
+                        let (is_compatible, value_version_mask) =
+                            chardata.check_version_compatibility(value_spec, target_version);
+                        if !is_compatible {
+                            compat_errors.push(CompatibilityError::IncompatibleElement {
+                                element: self.clone(),
+                                version_mask: value_version_mask,
+                            });
+                        }
+                        overall_version_mask &= value_version_mask;
+                    }
+                }
+            }
         }
 
         // check the compatibility of all sub-elements
